@@ -162,6 +162,9 @@ def lazy_vs_eager(call, inputs, chunks, scheduler, allowed_notimpl, what, ctx=No
 
         raise Violation(f"{what}: lazy input raised where the in-memory call returns", exception=type(e).__name__, message=str(e)[:300],
                         frame=innermost_xgcm_frame(e), chunks=chunks)
+    if allowed_notimpl == "must":
+        raise Violation(f"{what}: data chunked along the operated axis with an inner / outer position involved was answered instead of "
+                        "refused with NotImplementedError", chunks=chunks)
     if counter.n != 0:
         raise Violation(f"{what}: building the lazy result triggered {counter.n} computation(s)", chunks=chunks)
     if sibling is not None:
@@ -281,8 +284,8 @@ def run_stencil(sub, chunks, scheduler, classes, ctx):
     core_chunked = any(len(chunks.get(gen.dim_name(n, sub["data_pos"][n]), [1])) > 1 for n in sub["op_axes"])
     classes.append("core-chunked" if core_chunked else "broadcast-chunked-only")
     kw2 = dict(kw, boundary="fill", fill_value=123.0) if kw.get("boundary") != "fill" or kw.get("fill_value") != 123.0 else dict(kw, boundary="extend")
-    return lazy_vs_eager(lambda x: fn(x, ax, **kw), [da], chunks, scheduler, operated_inner_outer_chunked(sub, chunks, targets), f"Grid.{sub['op']}",
-                         sibling=lambda x: fn(x, ax, **kw2))
+    return lazy_vs_eager(lambda x: fn(x, ax, **kw), [da], chunks, scheduler, "must" if operated_inner_outer_chunked(sub, chunks, targets) else False,
+                         f"Grid.{sub['op']}", sibling=lambda x: fn(x, ax, **kw2))
 
 
 def run_wstencil(sub, chunks, scheduler, classes, ctx):
